@@ -58,6 +58,7 @@ type VipnodePool struct {
 	mu               sync.Mutex
 	remoteHosts      map[store.NodeID]jsonrpc2.Service
 	remoteNodeLookup map[jsonrpc2.Service]store.NodeID // Reverse lookup
+	updating         map[store.NodeID]struct{}         // Nodes with an update in progress
 }
 
 // TODO: Move CloseRemote and NumRemotes, and remoteHosts etc into a separate struct?
@@ -81,6 +82,27 @@ func (p *VipnodePool) CloseRemote(remote jsonrpc2.Service) error {
 	}
 
 	return nil
+}
+
+// startUpdate marks the node as having an update in progress, it returns
+// false if there already is one.
+func (p *VipnodePool) startUpdate(nodeID store.NodeID) bool {
+	p.mu.Lock()
+	defer p.mu.Unlock()
+	if _, ok := p.updating[nodeID]; ok {
+		return false
+	}
+	if p.updating == nil {
+		p.updating = map[store.NodeID]struct{}{}
+	}
+	p.updating[nodeID] = struct{}{}
+	return true
+}
+
+func (p *VipnodePool) finishUpdate(nodeID store.NodeID) {
+	p.mu.Lock()
+	defer p.mu.Unlock()
+	delete(p.updating, nodeID)
 }
 
 // NumRemotes returns the number of remote hosts that the pool is currently maintaining.
@@ -147,6 +169,13 @@ func (p *VipnodePool) Update(ctx context.Context, sig string, nodeID string, non
 			return nil, err
 		}
 	}
+
+	// Updates of one node must not overlap: both would bill the time since the
+	// same previous update.
+	if !p.startUpdate(store.NodeID(nodeID)) {
+		return nil, ErrUpdateInProgress
+	}
+	defer p.finishUpdate(store.NodeID(nodeID))
 
 	node, err := p.Store.GetNode(store.NodeID(nodeID))
 	if err != nil {
